@@ -810,20 +810,31 @@ func TestVerif_C12(t *testing.T) {
 		{conc: 2, maxip: 0, staggered: true, clients: cl(1, c12close, 2, c12close, 1, c12close)},
 	}
 	with := func(p c12sp, f func(*c12sp)) c12sp { f(&p); return p }
-	for _, p := range shapes2 {
-		// Serve: arrivals one by one in the quick tier (every blocking point with several runnable threads is a free
-		// branch of the exploration; unconstrained arrival costs ~10^6 executions per scenario), unconstrained in thorough
+	// Cost model (measured): every blocking point with several runnable threads is a free branch, so a scenario costs
+	// 10^3..10^5 executions at bound 1 when one of two clients is turned away early, ~10^6 when arrivals are
+	// unconstrained under Serve or when three clients run, and x50-100 per extra preemption.
+	for k, p := range shapes2 {
+		// Serve: arrivals one by one in the quick tier, unconstrained in thorough
 		list = append(list, sc{with(p, func(q *c12sp) { q.serve, q.oneByOne = true, true }), 1, 0})
 		list = append(list, sc{with(p, func(q *c12sp) { q.serve = true }), 1, 1})
-		list = append(list, sc{with(p, func(q *c12sp) { q.serve, q.oneByOne = true, true }), 2, 1})
-		// ServeConn: cheap, fully concurrent, one more preemption
-		list = append(list, sc{p, 2, 0})
-		list = append(list, sc{p, 3, 1})
-	}
-	for _, p := range shapes3 {
+		// ServeConn: fully concurrent arrivals
 		list = append(list, sc{p, 1, 0})
-		list = append(list, sc{p, 2, 1})
-		list = append(list, sc{with(p, func(q *c12sp) { q.serve, q.oneByOne = true, true }), 1, 1})
+		cheap := k == 0 || k == 1 || k == 3 || k == 5 || k == 6 // one client is turned away early
+		if cheap {
+			list = append(list, sc{p, 2, 0})
+		} else {
+			list = append(list, sc{p, 2, 1})
+		}
+		if k == 0 || k == 5 {
+			list = append(list, sc{p, 3, 1})
+			list = append(list, sc{with(p, func(q *c12sp) { q.serve, q.oneByOne = true, true }), 2, 1})
+		}
+	}
+	for k, p := range shapes3 {
+		list = append(list, sc{p, 1, 1})
+		if k%2 == 0 {
+			list = append(list, sc{with(p, func(q *c12sp) { q.serve, q.oneByOne = true, true }), 1, 1})
+		}
 	}
 	// thorough: the full Concurrency x MaxConnsPerIP grid
 	for _, conc := range []int{1, 2} {
@@ -832,7 +843,6 @@ func TestVerif_C12(t *testing.T) {
 				list = append(list,
 					sc{c12sp{serve: serve, oneByOne: serve, conc: conc, maxip: maxip, gate: true, clients: cl(1, c12close, 1, c12hijack)}, 1, 1},
 					sc{c12sp{serve: serve, oneByOne: serve, conc: conc, maxip: maxip, gate: false, clients: cl(1, c12close, 2, c12abort)}, 1, 1},
-					sc{c12sp{serve: serve, oneByOne: serve, conc: conc, maxip: maxip, gate: true, clients: cl(1, c12close, 1, c12close, 2, c12close)}, 1, 1},
 				)
 			}
 		}
